@@ -121,23 +121,23 @@ PROP = {'gen': [],
                'progress from every reachable state: any continuation of accepting / refusing (EAGAIN) / idle rounds with |pending| + chunks accepting ones '
                'drains the queue; the specification sides provably accept the model: FifoSpec every queue history, FrameSpec every run of the terminal '
                'object that ends with nothing pending (not runs that stop with output queued). Models tied to the code by '
-               'histories on the real IOQueue (incl. 64 KiB..1 MiB chunks) and by pty sessions of the real SystemTerminal.',
+               'histories on the real IOQueue (incl. chunks over 64 KiB drained in many pieces; up to 1 MiB in the thorough tier) and by pty sessions of the real SystemTerminal.',
  'level_note': 'Trusted: Coq kernel + vm_compute; hand-written models IO/IOQueue.v, IO/TermIO.v validated by the correspondence runs; '
-               'IO/FifoSpec.v / match_frames as the reading of the property text; kernel behaviour universally quantified, sampled by '
-               'the pty run; fewer than 2^64 bytes per history; tee/tracing outside the model. Defects fixed: 1668a13, 1688aac, 5a0ca21 (tee). '
+               'IO/FifoSpec.v / IO/FrameSpec.v (match_frames) as the reading of the property text; kernel behaviour universally quantified, sampled by '
+               'the pty run; fewer than 2^64 bytes per history; tee/tracing outside the model. Defects fixed (hashes on /repo main): 1668a13, 1688aac, 5a0ca21 (tee); related e293376 (C17), 93ac8da (C01 owner). No open findings. '
                'No axioms (Print Assumptions: closed).',
  'technique': 'Coq proof (representation invariant, simulation terminal program -> queue history, erasure relation, parametricity + '
               'frame-tagged histories) + model/implementation correspondence (random histories, pty sessions)',
  'design_ref': 'DESIGN.md 6.16',
- 'n_quick': 1600,
+ 'n_quick': 1000,
  'n_thorough': 30000,
- 'shard': 200,
+ 'shard': 125,
  'level': 'proof',
  'extra': [pty_sessions],
  'trusted_base': [KERNEL,
                   'hand-written models IO/IOQueue.v (IOQueue) and IO/TermIO.v (UnixTerminal write/execute/flush/poll write step/frames_drop), '
                   'tied to the code by the correspondence runs',
-                  'specification IO/FifoSpec.v (byte FIFO with flush marks) and Corr/C16Pty.match_frames, written from the property text',
+                  'specifications IO/FifoSpec.v (byte FIFO with flush marks) and IO/FrameSpec.v (match_frames), written from the property text',
                   'primitive 63-bit integers of Coq in the correspondence checks only (big histories, pty sessions)',
                   HARNESS + '; pty peer thread (harness/src/ptyutil.rs)'],
  'assumptions': ['fewer than 2^64 bytes are written in one history (so `length += n` cannot overflow and chunk lengths fit usize)',
